@@ -219,6 +219,12 @@ func randomMapSys() sysDef {
 		ops = append(ops, op{"delete", k, 0})
 		names = append(names, fmt.Sprintf("Delete(%d)", k))
 	}
+	// the random picks are operations too (applied also when a history is replayed): they are read-only by contract,
+	// so whatever comes after them must behave as if they had not happened
+	for n := 1; n <= 3; n++ {
+		ops = append(ops, op{"sample", n, 0})
+		names = append(names, fmt.Sprintf("RandomUniqueEntries(%d)+RandomKey", n))
+	}
 	return sysDef{name: "randommap", names: names, depth: 30, merge: true, mk: func() *simple {
 		real := randommap.New[int, int]()
 		model := map[int]int{}
@@ -229,7 +235,11 @@ func randomMapSys() sysDef {
 				o := ops[i]
 				cls := "RandomMap." + o.kind
 				mv, present := model[o.k]
-				if o.kind == "set" {
+				if o.kind == "sample" {
+					_ = real.RandomUniqueEntries(o.k)
+					_, _ = real.RandomKey()
+					_, _ = real.RandomEntry()
+				} else if o.kind == "set" {
 					real.Set(o.k, o.v)
 					model[o.k] = o.v
 				} else {
